@@ -381,10 +381,13 @@ structure ReloadGuard (rr : RoomRow) : Prop where
   hasAdmin : rr.admins ≠ []
   hasGroup : rr.groups ≠ []
 
-theorem toRight_raw_eq {r : RightRow} (h : r.mutAll = true → r.mutSelf = true) :
-    r.toRight true = r.toRight false := by
-  simp only [RightRow.toRight, Bool.false_eq_true, if_false, if_true, Right.new]
-  cases hs : r.mutSelf <;> cases ha : r.mutAll <;> simp_all
+theorem toRight_raw_eq (raw : Bool) {r : RightRow} (h : r.mutAll = true → r.mutSelf = true) :
+    r.toRight raw = r.toRight false := by
+  cases raw with
+  | false => rfl
+  | true =>
+    simp only [RightRow.toRight, Bool.false_eq_true, if_false, if_true, Right.new]
+    cases hs : r.mutSelf <;> cases ha : r.mutAll <;> simp_all
 
 theorem userWF_of_one {l : List UserRow} (h : ∀ a ∈ l, ∀ b ∈ l, a.key = b.key → a.date = b.date) :
     UserWF (l.map UserRow.toUser) := by
@@ -394,31 +397,33 @@ theorem userWF_of_one {l : List UserRow} (h : ∀ a ∈ l, ∀ b ∈ l, a.key = 
   obtain ⟨b0, hb0, rfl⟩ := List.mem_map.mp hb
   exact h a0 ha0 b0 hb0
 
-theorem loads_guarded {seq : List Nat} {rr : RoomRow} (hn : (rr.groups.map (·.gid)).Nodup) (hg : ReloadGuard rr) :
-    ∃ r, Loads Defects.asImplemented seq r rr := by
+/-- under the guard the reload succeeds and agrees with the stored rows whatever the switches are — in
+    particular for the code as it is -/
+theorem loads_guarded {df : Defects} {seq : List Nat} {rr : RoomRow} (hn : (rr.groups.map (·.gid)).Nodup)
+    (hg : ReloadGuard rr) : ∃ r, Loads df seq r rr := by
   have hone : ∀ (nf : Bool) (rev : TieOrder) (l : List UserRow), (∀ a ∈ l, ∀ b ∈ l, a.key = b.key → a.date = b.date) →
       UserWF ((readUsers nf rev l).map UserRow.toUser) := by
     intro nf rev l h
     apply userWF_of_one
     intro a ha b hb
     exact h a ((readUsers_perm nf rev l).mem_iff.mp ha) b ((readUsers_perm nf rev l).mem_iff.mp hb)
-  have hparse : ∃ r, parseRoom true (readRoom true (.seq seq) rr) = .ok r := by
+  have hparse : ∃ r, parseRoom df.reloadRawRights (readRoom df.newestFirstReplay (.seq seq) rr) = .ok r := by
     apply parseRoom_of_wf
     · rw [readRoom_gids]; exact hn
-    · exact hone true (.seq seq) _ hg.adminsOne
+    · exact hone df.newestFirstReplay (.seq seq) _ hg.adminsOne
     · intro g hgm
       simp only [readRoom, List.mem_map] at hgm
       obtain ⟨g0, hg0, rfl⟩ := hgm
-      refine ⟨?_, hone true (.seq seq) _ (hg.usersOne g0 hg0),
-        hone true (.seq seq) _ (hg.userAdminsOne g0 hg0)⟩
+      refine ⟨?_, hone df.newestFirstReplay (.seq seq) _ (hg.usersOne g0 hg0),
+        hone df.newestFirstReplay (.seq seq) _ (hg.userAdminsOne g0 hg0)⟩
       apply gwf_of_singleDate
       intro a ha b hb
       obtain ⟨a0, ha0, rfl⟩ := List.mem_map.mp ha
       obtain ⟨b0, hb0, rfl⟩ := List.mem_map.mp hb
       simp only [toRight_entity, toRight_validFrom]
       exact hg.rightsOne g0 hg0 a0
-        ((readRights_perm true (.seq seq) g0.rights).mem_iff.mp ha0) b0
-        ((readRights_perm true (.seq seq) g0.rights).mem_iff.mp hb0)
+        ((readRights_perm df.newestFirstReplay (.seq seq) g0.rights).mem_iff.mp ha0) b0
+        ((readRights_perm df.newestFirstReplay (.seq seq) g0.rights).mem_iff.mp hb0)
   obtain ⟨r, hr⟩ := hparse
   obtain ⟨hid, hadm, f, hw⟩ := parseRoom_ok hr
   refine ⟨r, ?_, ?_, hw, hid⟩
@@ -431,17 +436,16 @@ theorem loads_guarded {seq : List Nat} {rr : RoomRow} (hn : (rr.groups.map (·.g
       | nil => exact absurd h hg.hasGroup
       | cons _ _ => rfl
     simp only [reloadRoom, h1, h2, Bool.or_self, Bool.and_false, Bool.false_eq_true, if_false]
-    simp only [Defects.asImplemented]
     rw [hr]
-  · apply agreesOrd_read (nf := true) (t := .seq seq)
+  · apply agreesOrd_read (nf := df.newestFirstReplay) (t := .seq seq)
     refine ⟨by rw [hadm], ?_⟩
-    have hnorm : ∀ g ∈ (readRoom true (.seq seq) rr).groups, ∀ a ∈ g.rights,
+    have hnorm : ∀ g ∈ (readRoom df.newestFirstReplay (.seq seq) rr).groups, ∀ a ∈ g.rights,
         a.mutAll = true → a.mutSelf = true := by
       intro g hgm a ha
       simp only [readRoom, List.mem_map] at hgm
       obtain ⟨g0, hg0, rfl⟩ := hgm
-      exact hg.rightsNormal g0 hg0 a ((readRights_perm true (.seq seq) g0.rights).mem_iff.mp ha)
-    generalize (readRoom true (.seq seq) rr).groups = gs at f hnorm
+      exact hg.rightsNormal g0 hg0 a ((readRights_perm df.newestFirstReplay (.seq seq) g0.rights).mem_iff.mp ha)
+    generalize (readRoom df.newestFirstReplay (.seq seq) rr).groups = gs at f hnorm
     generalize r.auths = as at f
     induction f with
     | nil => exact Forall2.nil
@@ -449,10 +453,10 @@ theorem loads_guarded {seq : List Nat} {rr : RoomRow} (hn : (rr.groups.map (·.g
       refine Forall2.cons ?_ (ih (fun g' hg' => hnorm g' (List.mem_cons_of_mem _ hg')))
       refine ⟨hab.id, by rw [hab.users], by rw [hab.userAdmins], ?_⟩
       rw [hab.rights]
-      have : g.rights.map (RightRow.toRight true) = g.rights.map (RightRow.toRight false) := by
+      have : g.rights.map (RightRow.toRight df.reloadRawRights) = g.rights.map (RightRow.toRight false) := by
         apply List.map_congr_left
         intro x hx
-        exact toRight_raw_eq (hnorm g (List.mem_cons_self ..) x hx)
+        exact toRight_raw_eq _ (hnorm g (List.mem_cons_self ..) x hx)
       rw [this]
 
 theorem ok_of_toBool {ε α : Type} {x : Except ε α} (h : x.toBool = true) : ∃ a, x = .ok a := by
